@@ -7,7 +7,7 @@ def run(tier, seed, verdict):
     cov, assume = run_expr_prop("C04", tier, seed, verdict, variants=("asan20d",))
     # task<> registers stop callbacks (stop-request thunk, token adapter) on its receiver's token as well: the
     # deregistration clause is monitored on the coroutine harness too (counting-token rule M4, source freed at completion)
-    n, budget = (16, 40) if tier == "quick" else (120, 100)
+    n, budget = (16, 40) if tier == "quick" else (100, 100)
     cr = coro_check.CoroRun(seed, n, budget, "asan20d")
     cr.build()
     cr.execute({"C04": verdict})
